@@ -315,7 +315,7 @@ def msh9_text(v, name, ec):
     if len(parts) >= 2:
         comps = [parts[0], parts[1], name]
     else:
-        comps = [name, '', name]
+        comps = [name, 'A01', name]      # one-part structure ids (ACK): any trigger event, structure in MSH-9.3
     comps = comps[:max(n, 1)] if n < 3 else comps
     return ec['COMPONENT'].join(R.trim(comps, ''))
 
